@@ -38,6 +38,7 @@ PROPS = {
     "C20": {"jobs": [enum("TestC20Table"), rapid("TestC20", 2000, 2000)]},
     "C11": {"jobs": [rapid("TestC11", 800, 4000), rapid("TestC11Request", 800, 3000), rapid("TestC11Alloc", 500, 3000), enum("TestC11EchoIDs")]},
     "C12": {"jobs": [enum("TestC12Classes"), rapid("TestC12Random", 20000, 300000), rapid("TestC12EndToEnd", 1500, 10000)]},
+    "C13": {"jobs": [{"kind": "script", "name": "C13Kernel", "run": "C13Kernel", "cmd": ["python3", "c13_kernel.py"], "timeout_quick": 600, "timeout_thorough": 2400}]},
     "C14": {"jobs": [rapid("TestC14", 400, 1500, race=True, env={"GORACE": "halt_on_error=1 exitcode=66"}),
                      rapid("TestC14Fanout", 250, 1000, race=True, env={"GORACE": "halt_on_error=1 exitcode=66"}),
                      rapid("TestC11Alloc", 300, 2000, race=True, name="TestC11Alloc(race)", env={"GORACE": "halt_on_error=1 exitcode=66"}),
